@@ -11,7 +11,7 @@
    Con: one burst of concurrent Connect calls issued from a quiescent state (player on server 0,
    3 healthy backends), every call with its result and logical-clock interval, and the final
    observation.  Base/Lin.v searches and validates a linearization against the atomic specification
-   Switch.lin_step.  If there is none and two admitted calls overlapped in real time, the case is in
+   Switch.lin_step.  If there is none and two started calls overlapped in real time, the case is in
    the trigger class of finding 1 (admission is not atomic: two attempts run at once; the outcome of
    simultaneous attempts is not modelled further). *)
 From Coq Require Import List Arith Bool ZArith.
@@ -47,14 +47,14 @@ Definition judge_seq f n try scr ops observed : verdict :=
 
 (* ----- concurrent bursts ----- *)
 
-Definition admitted (q : req) : bool :=
+Definition started (q : req) : bool :=
   match q_res q with RInProgress | RAlready => false | _ => true end.
 
 Fixpoint calls_of (k : nat) (qs : list req) : list (call lop lres) :=
   match qs with
   | [] => []
   | q :: r =>
-    (if admitted q
+    (if started q
      then [mkCall (LBegin k (q_t q)) LStarted (q_inv q) (q_ret q);
            mkCall (LEnd k) (LRes (q_res q)) (q_inv q) (q_ret q)]
      else [mkCall (LBegin k (q_t q)) (LRes (q_res q)) (q_inv q) (q_ret q)])
@@ -72,17 +72,17 @@ Definition start_state : lst :=
 
 Definition overlap (a b : req) : bool := (q_inv a <? q_ret b)%Z && (q_inv b <? q_ret a)%Z.
 
-Fixpoint two_admitted_overlap (qs : list req) : bool :=
+Fixpoint two_started_overlap (qs : list req) : bool :=
   match qs with
   | [] => false
-  | q :: r => (admitted q && existsb (fun x => admitted x && overlap q x) r) || two_admitted_overlap r
+  | q :: r => (started q && existsb (fun x => started x && overlap q x) r) || two_started_overlap r
   end.
 
 Definition judge_con f calls final : verdict :=
   let e := mkEnv f [0] [] in
   let h := history_of calls final in
   if check_history (lin_step e) lres_eqb (S (length h)) start_state h then VOk
-  else if two_admitted_overlap calls then VKnown 1
+  else if two_started_overlap calls then VKnown 1
   else VViolation.
 
 Definition judge (c : case) : verdict :=
